@@ -298,8 +298,24 @@ pub fn run_c09(cfg: &Cfg, log: &mut Log) {
                             let m1 = (maps_summary().0, 0usize);
                             let region = case.region();
                             let mut w = Walker::default();
-                            let ok = case.walk(&mut w) == v;
+                            let mut ok = case.walk(&mut w) == v;
                             drop(w);
+                            // the copying loaders own a private copy: rewriting the file
+                            // (same length, every byte inverted) must not change the structure
+                            if lname != "mmap" {
+                                let inverted: Vec<u8> = bytes.iter().map(|b| !b).collect();
+                                if std::fs::write(&good, &inverted).is_ok() {
+                                    let mut w2 = Walker::default();
+                                    let still = rt::outcome::guarded(|| case.walk(&mut w2) == v).unwrap_or(false);
+                                    log.count("file_rewrites_while_loaded", 1);
+                                    if !still {
+                                        ok = false;
+                                        log.violation("C09", &format!("C09/changed-by-file-rewrite/{}", lname), rc.name, Some(&v),
+                                            format!("{}: the loaded structure changed when the file ({} bytes) was overwritten while the MemCase was alive: the backing memory is not a private copy", lname, bytes.len()), vec![]);
+                                    }
+                                    let _ = std::fs::write(&good, &bytes);
+                                }
+                            }
                             drop(case);
                             let c2 = rt::alloc::counters();
                             let m2 = maps_summary();
